@@ -11,6 +11,7 @@ import Sigverif.Model.Support
 import Sigverif.Model.Eq
 import Sigverif.Model.Cleanup
 import Sigverif.Model.Chain
+import Sigverif.Model.CacheId
 import Sigverif.Model.Cache
 import Sigverif.Model.Visitor
 import Sigverif.Model.Grammar
@@ -653,6 +654,7 @@ def handle (line : String) : String :=
       let (p, rest') ← parseProg rest
       if rest' ≠ [] then none else
       some (showRes (discovered own (resolveWith tbl pm) (some ((truth p).map (FwdCall.toRec p)))))
+    | "cacheid" :: rest => SV.cacheIdOp rest   -- which instance a looked-up wrapper is bound to (Model/CacheId.lean)
     | "chain" :: rest => SV.chainOp rest       -- the fallback chain of forged_signature (Model/Chain.lean)
     | "makeup" :: ex :: p :: [] => do
       let cs := makeUpCallsigs (← parseParams p) (← parseNats ex ".")
